@@ -8,25 +8,32 @@ EXTENDS Compound
 
 \* ---- values that are lists: rtcp.Marshal([]Packet) and CompoundPacket ----
 IsList(v)  == v.k \in {"LIST", "CP"}
+\* the packets a list stands for on the wire: a CompoundPacket given to rtcp.Marshal as a member of a list
+\* contributes its own members in place (one level of nesting)
+Pk(v) == IF v.k = "LIST" /\ (\E i \in 1..Len(v.pkts) : v.pkts[i].k = "CP")
+         THEN FlatSeq([i \in 1..Len(v.pkts) |-> IF v.pkts[i].k = "CP" THEN v.pkts[i].pkts ELSE << v.pkts[i] >>])
+         ELSE v.pkts
 WFAny(D, v) ==
-  IF IsList(v) THEN /\ \A i \in 1..Len(v.pkts) : ~IsList(v.pkts[i]) /\ WF(D, v.pkts[i])
+  IF IsList(v) THEN /\ \A i \in 1..Len(Pk(v)) : ~IsList(Pk(v)[i]) /\ WF(D, Pk(v)[i])
                     /\ (v.k = "CP" => Valid(v.pkts))
+                    /\ (v.k = "LIST" => \A i \in 1..Len(v.pkts) : v.pkts[i].k = "CP" => Valid(v.pkts[i].pkts))
   ELSE WF(D, v)
 OverAny(v) ==
-  IF IsList(v) THEN \E i \in 1..Len(v.pkts) : ~IsList(v.pkts[i]) /\ Over(v.pkts[i])
+  IF IsList(v) THEN \E i \in 1..Len(Pk(v)) : ~IsList(Pk(v)[i]) /\ Over(Pk(v)[i])
   ELSE Over(v)
-EncAny(D, v) == IF IsList(v) THEN EncList(D, v.pkts) ELSE EncPacket(D, v)
-SizeAny(v)   == IF IsList(v) THEN SeqSum([i \in 1..Len(v.pkts) |-> Size(v.pkts[i])]) ELSE Size(v)
+EncAny(D, v) == IF IsList(v) THEN EncList(D, Pk(v)) ELSE EncPacket(D, v)
+SizeAny(v)   == IF IsList(v) THEN SeqSum([i \in 1..Len(Pk(v)) |-> Size(Pk(v)[i])]) ELSE Size(v)
 EncEqAny(D, v, out) ==
   IF ~IsList(v) THEN EncEq(D, v, out)
-  ELSE LET RECURSIVE go(_, _)
-           go(i, off) == IF i > Len(v.pkts) THEN off = Len(out)
-                         ELSE LET n == Size(v.pkts[i]) IN
+  ELSE LET ps == Pk(v)
+           RECURSIVE go(_, _)
+           go(i, off) == IF i > Len(ps) THEN off = Len(out)
+                         ELSE LET n == Size(ps[i]) IN
                               /\ off + n <= Len(out)
-                              /\ EncEq(D, v.pkts[i], Sl(out, off, n))
+                              /\ EncEq(D, ps[i], Sl(out, off, n))
                               /\ go(i + 1, off + n)
        IN  go(1, 0)
-NormAny(D, v) == IF IsList(v) THEN [v EXCEPT !.pkts = [i \in 1..Len(v.pkts) |-> Norm(D, v.pkts[i])]] ELSE Norm(D, v)
+NormAny(D, v) == IF IsList(v) THEN [v EXCEPT !.pkts = [i \in 1..Len(Pk(v)) |-> Norm(D, Pk(v)[i])]] ELSE Norm(D, v)
 
 \* values whose own fields are all inside the record shapes the wire modules
 \* read (the harness only builds such values)
@@ -95,7 +102,7 @@ HeaderTags(D, v, out) ==
        IN IF out # exp THEN {"C05:header_accessor"} ELSE {}
 
 \* DestinationSSRC: C10
-DestAny(v) == IF IsList(v) THEN (IF Len(v.pkts) = 0 THEN << >> ELSE Dest(v.pkts[1])) ELSE Dest(v)
+DestAny(v) == IF IsList(v) THEN (IF Len(Pk(v)) = 0 THEN << >> ELSE Dest(Pk(v)[1])) ELSE Dest(v)
 DestTags(v, out) == IF out # DestAny(v) THEN {"C10:dest"} ELSE {}
 
 \* CompoundPacket.Validate and CNAME (C11)
@@ -206,7 +213,7 @@ RtDatagramTags(D, v, res) ==
 \* A TransportLayerCC whose header is inconsistent with its content is exempt.
 \* Under a deviation the expectation is the deviating model's own round trip.
 TwccExempt(v) ==
-  IF IsList(v) THEN \E i \in 1..Len(v.pkts) : v.pkts[i].k = "TWCC" /\ ~(v.pkts[i].hdr.c <= 31 /\ TwccConsistent(v.pkts[i]))
+  IF IsList(v) THEN \E i \in 1..Len(Pk(v)) : Pk(v)[i].k = "TWCC" /\ ~(Pk(v)[i].hdr.c <= 31 /\ TwccConsistent(Pk(v)[i]))
   ELSE v.k = "TWCC" /\ ~(v.hdr.c <= 31 /\ TwccConsistent(v))
 StableTags(D, v, res) ==
   IF res.panic \/ res.slow \/ TwccExempt(v) \/ v.pkts = << >> THEN {}
